@@ -46,6 +46,10 @@ var allValues = []val{
 	{name: "s-json-arr", mk: c(`[1,2]`)},
 	{name: "s-1Ki", mk: c("1Ki")},
 	{name: "s-pct", mk: c("100%d")},
+	// what is left after removing a prefix / suffix begins / ends with
+	// characters of that prefix / suffix (prefix vs. character-set trimming)
+	{name: "s-aab", mk: c("aab"), quick: true},
+	{name: "s-abc-3123", mk: c("abc-3123"), quick: true},
 	// int64
 	{name: "i-0", mk: c(int64(0)), quick: true},
 	{name: "i-1", mk: c(int64(1)), quick: true},
